@@ -160,3 +160,76 @@ PARTS = {
     "mts": {"strategy": lambda tier: spec_sup(tier, mts=True), "check": lambda s, c: check_sup(s, c, mts=True),
             "examples": {"quick": 3500, "thorough": 12000}, "sample": view},
 }
+
+
+# --------------------------------------------------------------------------------------------
+# multiple time steps on an extended-Lagrangian variable: a bias that bypasses the extended coordinate (harmonicWalls by default) acts
+# on the atoms directly; with time-step factor n its force is an impulse n times the force, at the steps that are multiples of n
+
+@st.composite
+def spec_mts_ext(draw, tier):
+    n = draw(st.sampled_from([1, 2, 2, 3, 4]))
+    T = draw(st.integers(4, 14))
+    lo = rnd(draw(fl(0.5, 2.0)), 2)
+    return {"n": n, "T": T, "lo": lo, "up": rnd(lo + draw(fl(0.3, 1.5)), 2), "k": rnd(draw(fl(0.5, 8.0)), 2), "w": draw(st.sampled_from([1.0, 0.5])),
+            "x": [rnd(draw(fl(-0.5, 4.0)), 3) for _ in range(T + 1)], "start": draw(st.sampled_from([0, 0, 6])),
+            "bypass": draw(st.sampled_from([True, True, False]))}
+
+
+def check_mts_ext(spec, ctx):
+    n = spec["n"]
+    ext = {"extendedLagrangian": "on", "extendedFluctuation": "0.3", "extendedTimeConstant": "60", "extendedLangevinDamping": "0",
+           "extendedTemp": "300"}
+    if n > 1:
+        ext["timeStepFactor"] = str(n)
+    cv = cvz.zvar("z0", 1, -5, 10, spec["w"], extra=ext)
+    walls = "harmonicWalls {\n  name w\n  colvars z0\n  lowerWalls %s\n  upperWalls %s\n  forceConstant %s\n%s%s}\n" % (
+        fnum(spec["lo"]) if False else repr(spec["lo"]), repr(spec["up"]), repr(spec["k"]), "  timeStepFactor %d\n" % n if n > 1 else "",
+        "" if spec["bypass"] else "  bypassExtendedLagrangian off\n")
+
+    def run(with_walls):
+        # a second, force-free user of the variable keeps it on the same schedule in both runs
+        hist = "histogram {\n  name h\n  colvars z0\n%s}\n" % ("  timeStepFactor %d\n" % n if n > 1 else "")
+        L = cvz.header(2, 0, temperature=300.0) + ["setstep %d" % spec["start"], "config <<END\n%s\n%s%s\nEND" % (cv, hist, walls if with_walls else "")]
+        for x in spec["x"]:
+            L += [cvz.pos_line_z([x], 2), "step"]
+        case = "\n".join(L) + "\n"
+        return case, run_case(case)
+    ca, ra = run(True)
+    cb, rb = run(False)
+    if ra.crashed or rb.crashed:
+        return Outcome(False, msg="crash %s" % (ra.stderr[-300:] or rb.stderr[-300:]), sig="crash", case_text=ca)
+    if ra.of("config")[0]["rc"] != 0 or rb.of("config")[0]["rc"] != 0:
+        return Outcome(False, msg="configuration rejected: %s" % (ra.of("config")[0]["errs"] or rb.of("config")[0]["errs"]), sig="gen_invalid", case_text=ca)
+    active = 0
+    for sa, sb, x in zip(ra.of("step"), rb.of("step"), spec["x"]):
+        if sa["errbits"] or sb["errbits"]:
+            return Outcome(False, msg="step error %s %s" % (sa["errs"], sb["errs"]), sig="step_error", case_text=ca)
+        it = sa["it"]
+        Fa, Fb = atom_forces2(sa), atom_forces2(sb)
+        d = (x - spec["lo"]) if x < spec["lo"] else ((x - spec["up"]) if x > spec["up"] else 0.0)
+        fw = -spec["k"] / (spec["w"] ** 2) * d
+        if not spec["bypass"]:
+            continue       # walls acting on the extended coordinate change its dynamics: only errors and crashes are looked at
+        exp = n * fw if it % n == 0 else 0.0
+        got = Fa[0][2] - Fb[0][2]
+        if exp != 0.0:
+            active += 1
+        if abs(got - exp) > 1e-10 * max(1.0, abs(exp)):
+            return Outcome(False, msg="step %d (time-step factor %d): the walls change the force on the atom by %r; the wall force at the actual value %r is "
+                           "%r, so %r is expected" % (it, n, got, x, fw, exp), sig="mts_ext_bypass", case_text=ca)
+    return Outcome(True, nontrivial=active >= 1 and n > 1, cls=("mts_ext", "n%d" % n, "bypass" if spec["bypass"] else "nobypass"),
+                   strata=["mts_ext"] + (["mts_ext_n>1"] if n > 1 and active else []), case_text=ca)
+
+
+def atom_forces2(s):
+    F = [[0.0] * 3 for _ in range(2)]
+    for slot, aid in enumerate(s["ids"]):
+        if aid < 2:
+            for d in range(3):
+                F[aid][d] += s["F"][slot][d]
+    return F
+
+
+PARTS["mts_ext"] = {"strategy": spec_mts_ext, "check": check_mts_ext, "examples": {"quick": 2000, "thorough": 20000}, "sample": lambda s: s}
+REQUIRED_STRATA = {"all": ["mts_ext:mts_ext_n>1"]}
